@@ -102,6 +102,14 @@ Theorem C19_install_no_late_node_id_failure :
 Proof. exact install_no_late_node_id_failure. Qed.
 Print Assumptions C19_install_no_late_node_id_failure.
 
+(** Presenting the trusted root once more as "intermediate" admits
+    nothing that is not admitted without it. *)
+Theorem C19_repeated_root_admits_nothing_new : forall t fid root noc n,
+  case_admit t fid root noc (Some root) = Ok n ->
+  case_admit t fid root noc None = Ok n.
+Proof. exact repeated_root_admits_nothing_new. Qed.
+Print Assumptions C19_repeated_root_admits_nothing_new.
+
 (** A trusted root on its own. *)
 Theorem C19_root_accepted_iff : forall t root,
   add_root t root = Ok tt <-> root_validb t root = true.
